@@ -5,7 +5,7 @@ import gfref
 
 sys.path.insert(0, os.path.join(VERIF, 'harness', 'gen'))
 
-FAMS = ['int8', 'ssse3', 'avx2', 'disp']
+FAMS = ['int8', 'ssse3', 'ssse3ext', 'avx2', 'disp']
 
 
 def rnd_block(rng, size):
